@@ -72,9 +72,29 @@ class JWTBearerClientAssertion:
 
         .. _`Section 3.1`: https://tools.ietf.org/html/rfc7523#section-3.1
         """
+        # errors raised by the application's own callbacks (client lookup, key
+        # lookup, jti store) are not errors of the assertion: they propagate
+        pending = []
+
+        def guard(func):
+            def wrapper(*args):
+                pending.append(func)
+                rv = func(*args)
+                pending.pop()
+                return rv
+
+            return wrapper
+
+        claims_options = self.create_claims_options()
+        jti_option = claims_options.get("jti")
+        if jti_option and jti_option.get("validate"):
+            claims_options["jti"] = dict(
+                jti_option, validate=guard(jti_option["validate"])
+            )
+
         try:
             claims = jwt.decode(
-                assertion, resolve_key, claims_options=self.create_claims_options()
+                assertion, guard(resolve_key), claims_options=claims_options
             )
             claims.validate(leeway=self.leeway)
         except JoseError as e:
@@ -83,6 +103,8 @@ class JWTBearerClientAssertion:
                 description=_error_description(e.description)
             ) from e
         except ValueError as e:
+            if pending:
+                raise
             # the key does not fit the algorithm named in the assertion header
             log.debug("Assertion Error: %r", e)
             raise InvalidClientError(description="Invalid client assertion") from e
